@@ -84,6 +84,9 @@ Record state := { s_tbl : list entry; s_mtu : Z; s_up : bool; s_peers : list pee
 
 Inductive event :=
 | TunBatch (pkts : list pkt)       (* one tun.Read batch *)
+| TunBatchFault (pkts : list pkt) (q k : N)
+                                   (* the same, but the first bind.Send toward peer q's endpoint transmits only its first k
+                                      buffers and returns an error (or conn.ErrUDPGSODisabled{RetryErr: nil} after all of them) *)
 | MtuUpdate (m : Z)                (* tun.EventMTUUpdate with tun.MTU() = m *)
 | RefHs (p ridx ep : N)            (* the remote initiates from ep announcing index ridx, and confirms with a keepalive *)
 | AnswerHs (p ridx ep : N)         (* the remote answers our outstanding initiation from ep, announcing ridx *)
@@ -146,6 +149,16 @@ Definition set_sess (p : peer) (ridx ep : N) : peer :=
   {| p_ep := Some ep; p_sess := Some {| ss_ridx := ridx; ss_ctr := 0; ss_expired := false |};
      p_hs_recent := true; p_init_out := false; p_staged := p_staged p |}.
 
+(* RoutineReadFromTUN for the packets routed to peer i, then StagePackets + SendStagedPackets *)
+Definition tun_step (tbl : list entry) (mtu : Z) (i : N) (p : peer) (pkts : list pkt) : peer * list out :=
+  let mine := filter (fun x => match route tbl x with Some j => j =? i | None => false end) pkts in
+  match mine with
+  | [] => (p, [])
+  | _ => send_staged mtu i
+           {| p_ep := p_ep p; p_sess := p_sess p; p_hs_recent := p_hs_recent p;
+              p_init_out := p_init_out p; p_staged := stage (p_staged p) mine |}
+  end.
+
 Definition peer_step (tbl : list entry) (mtu : Z) (up : bool) (i : N) (p : peer) (ev : event) : peer * list out :=
   match ev with
   | Down =>
@@ -162,14 +175,13 @@ Definition peer_step (tbl : list entry) (mtu : Z) (up : bool) (i : N) (p : peer)
   if negb up then (p, []) else
   match ev with
   | Down | Up => (p, [])
-  | TunBatch pkts =>
-      let mine := filter (fun x => match route tbl x with Some j => j =? i | None => false end) pkts in
-      match mine with
-      | [] => (p, [])
-      | _ => send_staged mtu i
-               {| p_ep := p_ep p; p_sess := p_sess p; p_hs_recent := p_hs_recent p;
-                  p_init_out := p_init_out p; p_staged := stage (p_staged p) mine |}
-      end
+  | TunBatch pkts => tun_step tbl mtu i p pkts
+  | TunBatchFault pkts q k =>
+      (* RoutineSequentialSender: the elements go back to the pool whatever SendBuffers returns, the error
+         is logged and the loop continues: what the bind did not transmit is never transmitted.  (A TUN batch
+         makes at most one Send call per peer: the flush of the container just staged, or one initiation.) *)
+      let '(p', o) := tun_step tbl mtu i p pkts in
+      (p', if q =? i then firstn (N.to_nat k) o else o)
   | MtuUpdate _ => (p, [])
   | RefHs j ridx ep =>
       if j =? i then
